@@ -17,6 +17,9 @@ def dispatch(prop):
     if prop in ('C05', 'C08', 'C13'):
         import p_tool
         return p_tool.check
+    if prop in ('C09', 'C16', 'C17'):
+        import p_cmd
+        return p_cmd.check
     if prop == 'C07':
         import p_dist
         return p_dist.check
